@@ -146,6 +146,7 @@ pub fn run_case(ctx: &Ctx, case: &Case) -> Outcome {
         }
     }
     // ---- the secondary leaves
+    let joiner_dbs_before_it_left: BTreeSet<String> = if fail.is_none() { cluster_dump(&c, 1).keys().cloned().collect() } else { BTreeSet::new() };
     if fail.is_none() {
         if case.leave == "clean" {
             c.nodes[1].node.as_ref().unwrap().shutdown();
@@ -184,8 +185,13 @@ pub fn run_case(ctx: &Ctx, case: &Case) -> Outcome {
     // ---- it comes back; commands accepted by the primary during the synchronisation
     let mut during_keys: BTreeSet<(usize, String)> = BTreeSet::new();
     let sync_mark = c.delivered.len();
+    // databases the joiner had when it left and does not have when it is back up (never snapshotted there): observed right
+    // after its start, before any message is delivered
+    let mut lost_at_restart: BTreeSet<String> = BTreeSet::new();
     if fail.is_none() {
         c.boot(1);
+        let now: BTreeSet<String> = cluster_dump(&c, 1).keys().cloned().collect();
+        lost_at_restart = joiner_dbs_before_it_left.difference(&now).cloned().collect();
         let mut choose = chooser(case.schedule.clone());
         // a few scheduler steps, then the "during" commands while the sync is in flight
         for cmd in case.during.iter() {
@@ -221,8 +227,16 @@ pub fn run_case(ctx: &Ctx, case: &Case) -> Outcome {
             *fail = Some((sig, detail));
         }
     };
+    // did an operation replicated live reach the joiner before it asked for what it had missed? (its request carries the
+    // time of the newest record of its own log, which such an operation has just moved forward)
+    let live_before_since = {
+        let since_at = c.delivered[sync_mark..].iter().position(|m| m.from == 1 && m.to == 0 && m.line.starts_with("replicate-since"));
+        let live_at = c.delivered[sync_mark..].iter().position(|m| m.from == 0 && m.to == 1 && m.dir == "c2s" && m.line.starts_with("rp ") && (m.line.contains(" replicate") || m.line.contains(" create-db")));
+        matches!((live_at, since_at), (Some(l), Some(s)) if l < s) || (live_at.is_some() && since_at.is_none())
+    };
     // ---- wire round trip: every sync message must decode to what it was built from
-    let mut full_sync = false;
+    // full synchronisation = the joiner asked for everything (`replicate-since <name> 0`)
+    let mut full_sync = c.delivered[sync_mark..].iter().any(|m| m.from == 1 && m.to == 0 && m.line.starts_with("replicate-since") && m.line.trim_end().ends_with(" 0"));
     // ---- and the builder: every sync `replicate` names a database and key the primary has, with the value the primary
     // holds; every key written while the joiner was away (and still live) is named
     let primary_now = if fail.is_none() { cluster_dump(&c, 0) } else { Default::default() };
@@ -282,18 +296,11 @@ pub fn run_case(ctx: &Ctx, case: &Case) -> Outcome {
                     }
                 }
                 if line.starts_with("create-db ") {
-                    full_sync = true;
+                    full_sync = full_sync || false; // (a create-db line alone says nothing: incremental syncs replay create-db records too)
                 }
             }
         }
     }
-    // did an operation replicated live reach the joiner before it asked for what it had missed? (its request carries the
-    // time of the newest record of its own log, which such an operation has just moved forward)
-    let live_before_since = {
-        let since_at = c.delivered[sync_mark..].iter().position(|m| m.from == 1 && m.to == 0 && m.line.starts_with("replicate-since"));
-        let live_at = c.delivered[sync_mark..].iter().position(|m| m.from == 0 && m.to == 1 && m.dir == "c2s" && m.line.starts_with("rp ") && (m.line.contains(" replicate") || m.line.contains(" create-db")));
-        matches!((live_at, since_at), (Some(l), Some(s)) if l < s) || (live_at.is_some() && since_at.is_none())
-    };
     // the joiner also answers its own replicate-since over the link it has to itself (from its own log, in the same
     // message format): those lines name keys too
     let named_by_primary = named.clone();
@@ -334,7 +341,32 @@ pub fn run_case(ctx: &Ctx, case: &Case) -> Outcome {
             let jm = match j.get(db) {
                 Some(m) => m,
                 None => {
-                    judge("C05|database-missing".to_string(), format!("database {} exists on the primary, not on the joiner", db), &mut fail);
+                    // when was it created? (the recorded finding is about the window of the rejoin itself)
+                    let when = if during_keys.contains(&(dbi, "$create".to_string())) {
+                        "created-during-the-rejoin"
+                    } else if created_away {
+                        "created-while-the-joiner-was-away"
+                    } else {
+                        "existed-before-the-joiner-left"
+                    };
+                    let empty = pm.keys().all(|k| k.starts_with('$'));
+                    // a joiner that restarts with its op-log but without ever having snapshotted its databases has lost
+                    // them and still asks for an incremental synchronisation (C16-log-keeps-records-of-lost-databases)
+                    let when = if when == "created-while-the-joiner-was-away" && live_before_since {
+                        "created-while-the-joiner-was-away|a-live-operation-reached-the-joiner-before-its-replicate-since"
+                    } else {
+                        when
+                    };
+                    let when = if !full_sync && lost_at_restart.contains(db) { "lost-by-the-joiner-at-its-restart-which-then-asked-for-an-incremental-sync" } else { when };
+                    let sig = if when.ends_with("a-live-operation-reached-the-joiner-before-its-replicate-since") {
+                        // the same missed backlog as for keys
+                        "C05|joiner-differs|backlog-not-sent|no-sync-message|a-live-operation-reached-the-joiner-before-its-replicate-since".to_string()
+                    } else if when.starts_with("lost-by-the-joiner") {
+                        format!("C05|database-missing|{}", when)
+                    } else {
+                        format!("C05|database-missing|{}|{}", when, if empty { "database-without-keys" } else { "database-with-keys" })
+                    };
+                    judge(sig, format!("database {} exists on the primary, not on the joiner", db), &mut fail);
                     continue;
                 }
             };
